@@ -43,7 +43,9 @@ CONSTANTS
   MaxCalls,            \* calls per behaviour
   CarryLayers,         \* failure layers for which "the error carries status and body" is asserted
   X509Chains,          \* exploration bound: the chains submitted through add-chain ("x509", "x509b")
-  KeyOptions,          \* exploration bound: how the client is given the log key ("der", "pem", "bothSame", "bothDifferent")
+  KeyOptions,          \* exploration bound: how the client is given the log key (names in OptionList below)
+  ProbeClasses,        \* exploration bound: body classes sent to a client built from non-standard key material / for a chain shape
+  ShapeChains,         \* exploration bound: the precertificate chain shapes (names of AllShapes below) submitted through add-pre-chain
   ReplaySources        \* exploration bound: classes of earlier 200 answers of signed endpoints the server keeps to replay from
 
 \* jsonclient.PostAndParseWithRetry: statuses on which a submission is made again
@@ -58,8 +60,46 @@ AddMethods == {"AddChain", "AddPreChain"}
 Methods == GetMethods \cup AddMethods
 \* the submitted chain; the entry type is bound by the METHOD (x509_entry / precert_entry)
 ChainsFor(m) == IF m = "AddChain" THEN X509Chains
-                ELSE IF m = "AddPreChain" THEN {"precert", "precertPreIssuer"}
+                ELSE IF m = "AddPreChain" THEN {"precert", "precertPreIssuer"} \cup ShapeChains
                 ELSE {"none"}
+
+(* ------------------ the submitted precertificate chains -------------- *)
+\* "an SCT whose signature does not verify for the chain ... it submitted": the entry of a precertificate chain is a
+\* FUNCTION of the chain (RFC 6962 3.2: the TBSCertificate without the poison; behind a Precertificate Signing
+\* Certificate with issuer and authority key identifier changed to the final issuer's), and the client has to compute
+\* it for whatever well-formed chain it is given.  The dimensions of the chain that this function reads (the same as
+\* spec/codec/EntryOfChain.tla and spec/ctfe/EntryShapes.tla, harness/pki Opts.ExtOrder):
+\*   via     who signed the precertificate: the issuing CA directly, a Precertificate Signing Certificate (plain, with a
+\*           keyid+issuer+serial authority key identifier, with the CT usage listed second)
+\*   poison  where the CA put the poison extension: last ("std"), directly before the authority key identifier, first
+\*   tail    the last ordinary extension: subjectAltName, or the authority key identifier itself (no subjectAltName)
+\*   na      how notAfter is written: UTCTime (2049-12-31T23:59:59Z) or GeneralizedTime (2050-01-01T00:00:00Z)
+\* "precert" and "precertPreIssuer" above are direct/std/san and preIssuer/std/san with a UTCTime notAfter.
+PreVia == {"direct", "preIssuer", "preIssuerFullAki", "preIssuerCtSecond"}
+PoisonAt == {"std", "poisonBeforeAki", "poisonFirst"}
+TailExt == {"san", "aki"}
+NotAfterForms == {"utc2049", "gen2050"}
+AllShapes == [via : PreVia, poison : PoisonAt, tail : TailExt, na : NotAfterForms]
+ShapeName(s) == "pre/" \o s.via \o "/" \o s.poison \o "/" \o s.tail \o "/" \o s.na
+ShapeNames == {ShapeName(s) : s \in AllShapes}
+ShapeOf(n) == CHOOSE s \in AllShapes : ShapeName(s) = n
+\* the extensions as the CA wrote them, and what 3.2 leaves of them in the entry (same order, poison gone)
+OrdinaryExts(s) == IF s.tail = "san" THEN <<"KU", "BC", "AKI", "SAN">> ELSE <<"KU", "BC", "AKI">>
+WrittenExts(s) == CASE s.poison = "std" -> Append(OrdinaryExts(s), "POISON")
+                    [] s.poison = "poisonBeforeAki" -> <<"KU", "BC", "POISON">> \o SubSeq(OrdinaryExts(s), 3, Len(OrdinaryExts(s)))
+                    [] s.poison = "poisonFirst" -> <<"POISON">> \o OrdinaryExts(s)
+EntryExts(s) == SelectSeq(WrittenExts(s), LAMBDA e : e # "POISON")
+\* whose subject name / key identifier / key hash the entry carries: the CA that will issue the final certificate
+EntryIssuer(s) == IF s.via = "direct" THEN "signer" ELSE "issuerOfSigner"
+ShapeInfo(ch) == IF ch \in ShapeNames
+                   THEN LET s == ShapeOf(ch) IN [k |-> "shape", via |-> s.via, poison |-> s.poison, tail |-> s.tail, na |-> s.na,
+                                                 written |-> WrittenExts(s), entry |-> EntryExts(s), issuer |-> EntryIssuer(s)]
+                   ELSE None
+ASSUME ShapesSound ==
+  /\ ShapeChains \subseteq ShapeNames
+  /\ \A s \in AllShapes : /\ EntryExts(s) = OrdinaryExts(s)
+                          /\ Cardinality({i \in DOMAIN WrittenExts(s) : WrittenExts(s)[i] = "POISON"}) = 1
+                          /\ Len(WrittenExts(s)) = Len(EntryExts(s)) + 1
 
 (* --------------------------- body classes ---------------------------- *)
 \* JSON level, every endpoint
@@ -199,18 +239,92 @@ ClassesFor(m) ==
   ELSE Common \cup TransportBad \cup {"missingOptional", "jsonNull"}
 
 (* ---------------------- the client's configuration ------------------- *)
-\* jsonclient.Options carries the key in two places: PublicKeyDER and PublicKey (PEM).  Keys are tokens: "A" is the log's
-\* key (signer "log" of the classes, id "keyhash"), "B" another key of the same type (signer "otherKey", id "foreign"),
-\* "C" a key of the other type.  The four ways to fill the two options:
-KeyOptionTable ==
-  [ der           |-> [der |-> "A",    pem |-> "none"],
-    pem           |-> [der |-> "none", pem |-> "A"],
-    bothSame      |-> [der |-> "A",    pem |-> "A"],
-    bothDifferent |-> [der |-> "A",    pem |-> "B"] ]   \* the PEM option names the very key the adversarial server also holds
-VARIABLE config      \* the option this client was built with (never changes)
+\* "A log client configured with the log's public key": jsonclient.Options carries the key in two places, PublicKeyDER
+\* and PublicKey (PEM).  A slot holds [key, form].  Keys are tokens: "A" is the log's key (signer "log" of the classes,
+\* id "keyhash"), "B" another key of the same type (signer "otherKey", id "foreign"), "C" a key of the other type, "U"
+\* stands for material that holds no key RFC 6962 knows.  The FORM is the key-material dimension - how the slot's bytes
+\* present the key:
+\*   standard   "spki": the SubjectPublicKeyInfo RFC 6962 2.1.4 names - rsaEncryption with NULL parameters and >= 2048
+\*              bits, id-ecPublicKey on P-256 with an uncompressed point
+\*   lenient    the log's key can be read out of the bytes, but not in the way RFC 6962 / RFC 5280 prescribe: an RSA key
+\*              under another algorithm identifier (id-RSAES-OAEP, id-RSASSA-PSS with absent / NULL parameters,
+\*              rsaEncryption without the NULL, the obsolete 2.5.8.1.1, a private arc), a compressed EC point, a key of
+\*              the right family with parameters 2.1.4 excludes (RSA 1024, P-384), bytes after the SubjectPublicKeyInfo;
+\*              in the PEM option also: another label, a certificate of the key, PKCS#1, text around the block, the
+\*              base64 without armour
+\*   unusable   no such key in it: Ed25519, DSA, X25519, arbitrary bytes, a truncated SubjectPublicKeyInfo, an empty
+\*              SEQUENCE; in the PEM option also: no block at all, an empty block, a private key
+\*   absent     the option is not set (nil / empty)
+Slot(k, f) == [key |-> k, form |-> f]
+Absent == Slot("none", "absent")
+LenientDerForms == {"rsaOAEP", "rsaPSS", "rsaPSSNull", "rsaNoNull", "rsaObsoleteOID", "rsaPrivateArcOID", "ecCompressed",
+                    "weakParams", "trailingBytes"}
+UnusableDerForms == {"ed25519", "dsa", "x25519", "garbage", "truncated", "emptySequence"}
+LenientPemForms == {"pemOtherLabel", "pemCertificate", "pemPKCS1", "pemLeadingText", "pemTrailingText", "pemBareBase64"}
+UnusablePemForms == {"pemNoBlock", "pemEmptyBlock", "pemPrivateKey"}
+DerForms == LenientDerForms \cup UnusableDerForms
+PemForms == DerForms \cup LenientPemForms \cup UnusablePemForms     \* every DER form also inside a "PUBLIC KEY" block
+FormClass(f) == IF f = "spki" THEN "standard"
+                ELSE IF f \in LenientDerForms \cup LenientPemForms THEN "lenient"
+                ELSE IF f = "absent" THEN "absent" ELSE "unusable"
+\* the forms that exist for one key type only (the key type is the harness's: an ECDSA and an RSA world)
+FormKeyTypes(f) == IF f \in {"rsaOAEP", "rsaPSS", "rsaPSSNull", "rsaNoNull", "rsaObsoleteOID", "rsaPrivateArcOID", "pemPKCS1"} THEN {"rsa"}
+                   ELSE IF f = "ecCompressed" THEN {"ecdsa"} ELSE {"ecdsa", "rsa"}
+MaterialSlot(f) == Slot(IF FormClass(f) = "unusable" THEN "U" ELSE "A", f)
+\* The ways to fill the two options.  The first four are the standard ones; then the log's key (or what stands in its
+\* place) in every other form in one option, the other option absent or naming the log's key in the standard form.
+\* (a key with parameters 2.1.4 excludes has no standard form to put into the other option)
+NoStandardForm == {"weakParams"}
+BaseKeyOptions == {"der", "pem", "bothSame", "bothDifferent"}
+OptionList ==
+  {  [name |-> "der",           der |-> Slot("A", "spki"), pem |-> Absent],
+     [name |-> "pem",           der |-> Absent,            pem |-> Slot("A", "spki")],
+     [name |-> "bothSame",      der |-> Slot("A", "spki"), pem |-> Slot("A", "spki")],
+     [name |-> "bothDifferent", der |-> Slot("A", "spki"), pem |-> Slot("B", "spki")],   \* the PEM option names the very key the adversarial server also holds
+     [name |-> "unconfigured",  der |-> Absent,            pem |-> Absent] }
+  \cup {[name |-> "der:" \o f,            der |-> MaterialSlot(f),   pem |-> Absent]            : f \in DerForms}
+  \cup {[name |-> "der:" \o f \o "+pemA", der |-> MaterialSlot(f),   pem |-> Slot("A", "spki")] : f \in DerForms \ NoStandardForm}
+  \cup {[name |-> "pem:" \o f,            der |-> Absent,            pem |-> MaterialSlot(f)]   : f \in PemForms}
+  \cup {[name |-> "pem:" \o f \o "+derA", der |-> Slot("A", "spki"), pem |-> MaterialSlot(f)]   : f \in PemForms \ NoStandardForm}
+OptionNames == {o.name : o \in OptionList}
+OptionNamed(n) == CHOOSE o \in OptionList : o.name = n
+MaterialOptions == OptionNames \ (BaseKeyOptions \cup {"unconfigured"})
+
+VARIABLE config      \* the option this client was built with: a member of OptionList (never changes)
+VARIABLE client      \* the outcome of the construction: "built" | "refused" (never changes)
+Present(s) == s.form # "absent"
+Configured(o) == Present(o.der) \/ Present(o.pem)
 \* NAMED CLAUSE DERWins ("If both opts.PublicKey and opts.PublicKeyDER are set, PublicKeyDER is used"): "the log's public
 \* key" of the property is ONE key - the one signatures are verified with AND the one whose hash the log ID has to be.
-VerifKey == LET o == KeyOptionTable[config] IN IF o.der # "none" THEN o.der ELSE o.pem
+DocSlot(o) == IF Present(o.der) THEN o.der ELSE o.pem
+OtherSlot(o) == IF Present(o.der) THEN o.pem ELSE Absent
+\* NAMED CLAUSE OnlyKeyItHas: when the documented option holds no key and the other one names a standard key, a client
+\* that is built all the same verifies with that key (it is the only one it was given).
+VerifKeyOf(o) == IF FormClass(DocSlot(o).form) \in {"standard", "lenient"} THEN DocSlot(o).key
+                 ELSE IF FormClass(OtherSlot(o).form) = "standard" THEN OtherSlot(o).key ELSE "U"
+VerifKey == VerifKeyOf(config)
+\* THE CONSTRUCTION.  A client that holds a key verifies with it; so a key option the client cannot verify with must
+\* make the construction fail - it must never yield a client without verifier:
+\*     Configured => construction fails \/ everything the client ever returns verifies under that key
+\*   "built"     both options standard (or absent): the client exists
+\*   "any"       NAMED CLAUSE LenientMaterial: the key is readable but not in the prescribed form (or the unused option is
+\*               not standard): the construction may fail; a client that is built verifies with that key, and may
+\*               refuse what verifies ("ok" becomes "any")
+\*   "refused"   no usable key: the construction fails, or the client returns no signed object at all (nothing
+\*               verifies under "U")
+\*   "unjudged"  no key configured: the premise of the property is false
+Constructs(o) == IF ~Configured(o) THEN "unjudged"
+                 ELSE IF VerifKeyOf(o) = "U" THEN "refused"
+                 ELSE IF FormClass(DocSlot(o).form) = "standard" /\ FormClass(OtherSlot(o).form) \in {"standard", "absent"} THEN "built"
+                 ELSE "any"
+ClientChoices(o) == IF Constructs(o) = "built" THEN {"built"} ELSE {"built", "refused"}
+OptionKeyTypes(o) == FormKeyTypes(o.der.form) \cap FormKeyTypes(o.pem.form)
+OptionInfo(o) ==
+  [der |-> o.der, pem |-> o.pem, construct |-> Constructs(o), verifkey |-> VerifKeyOf(o), keytypes |-> OptionKeyTypes(o)]
+\* the verdict of Decide (below) under this client's construction: nothing verifies under "U" - not even what the
+\* property leaves open for a client that holds the log's key; a lenient construction may refuse what verifies
+Lenient(m, v) == IF VerifKey = "U" /\ m \in {"GetSTH", "AddChain", "AddPreChain"} THEN "error"
+                 ELSE IF v = "ok" /\ Constructs(config) = "any" THEN "any" ELSE v
 KeyOfSigner == [log |-> "A", otherKey |-> "B", otherKeyType |-> "C", nobody |-> "nobody"]
 KeyOfId(r) == IF r.id = "keyhash" THEN "A" ELSE "B"
 
@@ -352,15 +466,16 @@ VARIABLES
   hist,       \* history: the completed calls (for replay)
   last        \* the call completed by the last step, None otherwise
 
-vars == <<config, pending, served, Returned, ncalls, hist, last>>
+vars == <<config, client, pending, served, Returned, ncalls, hist, last>>
 
-Init == config \in KeyOptions /\ pending = None /\ served = {} /\ Returned = {} /\ ncalls = 0 /\ hist = <<>> /\ last = None
+Init == config \in {o \in OptionList : o.name \in KeyOptions} /\ client \in ClientChoices(config) /\ pending = None /\ served = {} /\ Returned = {} /\ ncalls = 0 /\ hist = <<>> /\ last = None
 
 Invoke(m, ch) ==
   /\ pending = None /\ ncalls < MaxCalls
+  /\ client = "built" /\ Configured(config)      \* no client, no calls; no key, no claim
   /\ pending' = [method |-> m, chain |-> ch, answers |-> <<>>]
   /\ last' = None
-  /\ UNCHANGED <<config, served, Returned, ncalls, hist>>
+  /\ UNCHANGED <<config, client, served, Returned, ncalls, hist>>
 
 \* the call ends: `end` tells how, `outcome` is the verdict, `returns` whether a value is handed back
 Complete(answers, end, outcome, layer, returns) ==
@@ -372,10 +487,11 @@ Complete(answers, end, outcome, layer, returns) ==
                ELSE "unasserted"
       result == IF returns THEN [k |-> "value", what |-> Kind(m), resp |-> Reported(Semantic(m, pending.chain, fin), stale)]
                 ELSE [k |-> "error", carries |-> IF end = "answered" THEN fin ELSE None]
-      step == [config |-> config, method |-> m, chain |-> pending.chain, answers |-> answers, end |-> end,
+      step == [config |-> config.name, opt |-> OptionInfo(config), method |-> m, chain |-> pending.chain, shape |-> ShapeInfo(pending.chain),
+               answers |-> answers, end |-> end,
                expect |-> outcome, layer |-> layer, carry |-> carry, result |-> result]
   IN /\ pending' = None
-     /\ UNCHANGED config
+     /\ UNCHANGED <<config, client>>
      /\ ncalls' = ncalls + 1
      /\ Returned' = IF returns THEN Returned \cup {[what |-> Kind(m), method |-> m, chain |-> pending.chain,
                                                     resp |-> Reported(Semantic(m, pending.chain, fin), stale)]}
@@ -396,22 +512,30 @@ AsksAgain(m, st, cl) == m \in AddMethods /\ (st \in Retryable \/ (st = 200 /\ cl
 FollowedUp(a) == \/ a.status \in RetryStatuses /\ a.class \in RetryBodies
                  \/ a.status = 200 /\ a.class \in UndecodableBodies
 
+\* exploration bound (ProbeClasses = {}: none): a client built from non-standard key material, and a call that submits one of
+\* the chain shapes, get one answer: status 200 with a class in ProbeClasses
+\* (IF, not \/: inside an action a disjunction is a branch)
+ProbeBound(st, cl) == IF ProbeClasses = {} THEN TRUE
+                      ELSE IF config.name \in BaseKeyOptions /\ pending.chain \notin ShapeChains THEN TRUE
+                      ELSE st = 200 /\ cl \in ProbeClasses /\ pending.answers = <<>>
 \* the server answers the outstanding request: with a body made for it (src = None) or out of an earlier answer
 Answer(st, cl, src) ==
   /\ pending # None
   /\ Len(pending.answers) < MaxAnswers
   /\ IF src = None THEN cl \in ClassesFor(pending.method)
                    ELSE src \in served /\ cl \in ReplaysFor(pending.method, src)
+  /\ ProbeBound(st, cl)
   /\ pending.answers # <<>> => FollowedUp(pending.answers[Len(pending.answers)]) /\ st \in AfterRetryStatuses \cup RetryStatuses
   /\ LET a == [status |-> st, class |-> cl, src |-> src]
          ans == Append(pending.answers, a)
-         d == Decide(pending.method, pending.chain, a, \E i \in 1..Len(pending.answers) : pending.answers[i].status = 200)
+         d0 == Decide(pending.method, pending.chain, a, \E i \in 1..Len(pending.answers) : pending.answers[i].status = 200)
+         d == <<Lenient(pending.method, d0[1]), d0[2]>>
      IN IF AsksAgain(pending.method, st, cl)
           THEN \* the body is dropped, the request is made again
                /\ st \in Retryable => st \in RetryStatuses /\ cl \in RetryBodies
                /\ pending' = [pending EXCEPT !.answers = ans]
                /\ last' = None
-               /\ UNCHANGED <<config, served, Returned, ncalls, hist>>
+               /\ UNCHANGED <<config, client, served, Returned, ncalls, hist>>
           ELSE /\ pending.answers = <<>> => st \in Statuses
                /\ cl \notin TransportBad \/ st = 200
                /\ \E returns \in (IF d[1] = "any" THEN BOOLEAN ELSE {d[1] = "ok"}) :
@@ -438,7 +562,7 @@ Next == \/ \E m \in Methods : \E ch \in ChainsFor(m) : Invoke(m, ch)
 Spec == Init /\ [][Next]_vars
 
 (* --------------------------- the property ---------------------------- *)
-TypeOK == /\ config \in DOMAIN KeyOptionTable /\ VerifKey = "A"
+TypeOK == /\ DOMAIN config = {"name", "der", "pem"} /\ VerifKey \in {"A", "U"} /\ client \in ClientChoices(config)
           /\ pending = None \/ (pending.method \in Methods /\ Len(pending.answers) <= MaxAnswers)
           /\ ncalls \in 0..MaxCalls
           /\ \A s \in served : s.method \in {"GetSTH"} \cup AddMethods /\ s.chain \in ChainsFor(s.method) /\ IsSource(s.method, s.class)
@@ -450,6 +574,17 @@ OnlyVerifiedSTH == \A r \in Returned : r.what = "sth" => r.resp.rootLen = 32 /\ 
 
 \* every SCT ever handed back verifies for the submitted chain and the method's entry type and names the configured key
 OnlyVerifiedSCT == \A r \in Returned : r.what = "sct" => SigVerifies(r.resp) /\ IdIsKeyHash(r.resp) /\ r.resp.version = "v1"
+
+\* THE CONSTRUCTION LAW: a key was configured => the construction failed \/ every signed object ever returned verifies
+\* under that key (the two invariants above, VerifKey being the configured key); in particular a client built from
+\* material that holds no usable key returns no signed object at all, and a client that does not exist returns nothing.
+ConstructionLaw ==
+  LET o == config IN
+  /\ client = "refused" => Returned = {} /\ pending = None /\ ncalls = 0
+  /\ (Configured(o) /\ Constructs(o) = "refused") => \A r \in Returned : r.what = "data"
+  /\ (Configured(o) /\ client = "built") => \A r \in Returned : r.what \in {"sth", "sct"} => SigVerifies(r.resp) /\ VerifKey = "A"
+  /\ Constructs(o) = "built" => client = "built"
+  /\ ~Configured(o) => Returned = {}
 
 \* a value is only ever produced by a 200 answer of the last request
 OnlyFrom200 == [][(last' # None /\ last'.result.k = "value") =>
@@ -475,6 +610,17 @@ NoCreditForHistory ==
            good == IF last'.method = "GetSTH" THEN r.rootLen = 32 /\ SigVerifies(r)
                    ELSE SigVerifies(r) /\ IdIsKeyHash(r) /\ r.version = "v1" /\ r.extForm = "ok"
        IN (last'.result.k = "value") <=> good]_vars
+
+\* the option table says what the text above says
+ASSUME KeyOptionsSound ==
+  /\ Cardinality({o.name : o \in OptionList}) = Cardinality(OptionList)
+  /\ KeyOptions \subseteq OptionNames
+  /\ \A c \in BaseKeyOptions : Constructs(OptionNamed(c)) = "built" /\ VerifKeyOf(OptionNamed(c)) = "A"
+  /\ \A c \in MaterialOptions : LET o == OptionNamed(c) IN
+        /\ Constructs(o) \in {"any", "refused"} /\ OptionKeyTypes(o) # {}
+        /\ (Constructs(o) = "refused") <=> (VerifKeyOf(o) = "U")
+        /\ FormClass(DocSlot(o).form) = "unusable" /\ ~Present(OtherSlot(o)) => Constructs(o) = "refused"
+  /\ Constructs(OptionNamed("unconfigured")) = "unjudged"
 
 \* the entry decoder never both fails to parse the logged certificate and returns a parsed entry
 ASSUME EntryDecoderSound == \A c \in EntryClasses : EntryExpect[c].raw = "error" => EntryExpect[c].parsed = "error"
